@@ -77,8 +77,10 @@ def main():
             for g in sorted(groups_for(patch)):
                 checks += [c for c in GROUPS[g] if c not in checks]
             tgt = meta.get("property")
-            if tgt and tgt not in checks:
+            if tgt in ALL and tgt not in checks:
                 checks.insert(0, tgt)
+            if meta.get("kind") == "regression" and tgt in ALL:
+                checks = [tgt]          # the reverse of a repair: the property's own check has to re-find the defect
         res = {}
         for c in checks:
             t0 = time.time()
